@@ -75,7 +75,7 @@ class Cast(nn.Module):
 def random_tree(rng, depth=0, pool=None):
     pool = pool if pool is not None else []
     kinds = ['linear', 'linear_nobias', 'conv', 'mylinear', 'myconv', 'bn', 'ln', 'emb', 'relu', 'bilinear', 'mha',
-             'frozen', 'partfrozen', 'shared', 'wrapchild', 'container', 'container', 'modulelist', 'moduledict', 'identity', 'conv1d', 'fakelinear', 'fakeconv']
+             'frozen', 'partfrozen', 'shared', 'tied', 'wrapchild', 'container', 'container', 'modulelist', 'moduledict', 'identity', 'conv1d', 'fakelinear', 'fakeconv']
 
     def leaf(kind):
         if kind == 'linear':
@@ -143,6 +143,21 @@ def random_tree(rng, depth=0, pool=None):
         if kind == 'shared':
             if pool and rng.random() < 0.8:
                 mods[nm] = rng.choice(pool)
+                continue
+            kind = 'linear'
+        if kind == 'tied':
+            # weight tying: a DISTINCT module whose weight (and maybe bias) is the very Parameter of an earlier module
+            # (embedding/head style), trainable or frozen; eligibility is a property of each module's own parameters
+            src = [m_ for m_ in pool if isinstance(m_, nn.Linear) and type(m_) is nn.Linear]
+            if src:
+                s_ = rng.choice(src)
+                m = nn.Linear(s_.in_features, s_.out_features, bias=rng.random() < 0.6)
+                m.weight = s_.weight
+                if m.bias is not None and s_.bias is not None and rng.random() < 0.5:
+                    m.bias = s_.bias
+                if rng.random() < 0.5:
+                    m.weight.requires_grad_(False)   # freezes the shared tensor: BOTH owners are then not fully trainable
+                mods[nm] = m
                 continue
             kind = 'linear'
         m = leaf(kind)
